@@ -13,7 +13,7 @@ import sys
 NM = {'a': 'vqa', 'b': 'vqb', 'c': 'vqc', 'd': 'vqd', 'e': 'vqe', 'zz': 'zz9'}
 EXTRA = ['os', 'os.path', 'json.decoder', 'json.nosuch', 'sys', 'nosuchtop9', 'collections.abc', '_struct', 'email.mime.text', 'vqa.os',
          # names with an empty component
-         'vqa.', 'vqa..vqc', 'vqa.vqc.', '', '.vqa' [1:] + '.', 'os.']
+         'vqa.', 'vqa..vqc', 'vqa.vqc.', '', '.vqa' [1:] + '.', 'os.', 'json', 'json.mine', 'json.tool']
 
 
 class _Timeout(BaseException):
@@ -74,6 +74,13 @@ def materialise(layout, base):
                         p = os.path.join(root, 'vqa', nm, 'vqe.py')
                         write(p)
                         files.append((p, 'vqa.%s.vqe' % nm, False))
+        if spec.get('shadow'):
+            # a project package named json: it hides the standard library's, with everything below it
+            write(os.path.join(root, 'json', '__init__.py'))
+            p = os.path.join(root, 'json', 'mine.py')
+            write(p)
+            files.append((os.path.join(root, 'json', '__init__.py'), 'json', True))
+            files.append((p, 'json.mine', False))
         if spec['b'] == 'module':
             p = os.path.join(root, 'vqb.py')
             write(p)
@@ -131,7 +138,7 @@ def main():
         os.makedirs(base)
         roots, files = materialise(layout, base)
         importlib.invalidate_caches()
-        project = Project(roots)
+        project = Project([r + os.sep for r in roots] if layout[0].get('slash') else roots)
         lookups = []
         specs = {'.'.join(NM[x] for x in f['name']): f['res'] for f in finds}
         for name in list(specs) + EXTRA:
